@@ -4,8 +4,9 @@ use std::any::Any;
 use std::fmt::Display;
 
 use resolvo::{
-    Candidates, Dependencies, DependencyProvider, Interner, KnownDependencies, NameId, Problem, Requirement,
-    SolvableId, Solver, SolverCache, StringId, UnsolvableOrCancelled, VersionSetId, VersionSetUnionId,
+    Candidates, Dependencies, DependencyProvider, HintDependenciesAvailable, Interner, KnownDependencies, NameId,
+    Problem, Requirement, SolvableId, Solver, SolverCache, StringId, UnsolvableOrCancelled, VersionSetId,
+    VersionSetUnionId,
 };
 
 /// A tiny self-contained universe: packages with integer versions; a version set is (package, allowed versions).
@@ -17,6 +18,8 @@ pub struct Uni {
     pub unions: Vec<Vec<VersionSetId>>,
     pub deps: Vec<Option<KnownDependencies>>, // per solvable; None = no dependencies
     pub strings: Vec<String>,
+    pub locked: Vec<(NameId, SolvableId)>,
+    pub hint_all: Vec<NameId>,
 }
 
 impl Uni {
@@ -85,7 +88,16 @@ impl DependencyProvider for Uni {
         if c.is_empty() {
             return None;
         }
-        Some(Candidates { candidates: c, ..Default::default() })
+        Some(Candidates {
+            candidates: c,
+            locked: self.locked.iter().find(|(n, _)| *n == name).map(|(_, s)| *s),
+            hint_dependencies_available: if self.hint_all.contains(&name) {
+                HintDependenciesAvailable::All
+            } else {
+                HintDependenciesAvailable::None
+            },
+            ..Default::default()
+        })
     }
     async fn sort_candidates(&self, _solver: &SolverCache<Self>, solvables: &mut [SolvableId]) {
         solvables.sort_by(|a, b| self.solvables[b.0 as usize].1.cmp(&self.solvables[a.0 as usize].1));
@@ -99,8 +111,12 @@ impl DependencyProvider for Uni {
 }
 
 fn solve_and_print(uni: Uni, reqs: Vec<Requirement>, render: bool) {
+    solve_and_print_c(uni, reqs, vec![], render)
+}
+
+fn solve_and_print_c(uni: Uni, reqs: Vec<Requirement>, constraints: Vec<VersionSetId>, render: bool) {
     let mut solver = Solver::new(uni);
-    match solver.solve(Problem::new().requirements(reqs)) {
+    match solver.solve(Problem::new().requirements(reqs).constraints(constraints)) {
         Ok(mut sol) => {
             sol.sort();
             let names: Vec<String> = sol.iter().map(|&s| solver.provider().display_solvable(s).to_string()).collect();
@@ -144,11 +160,45 @@ fn scenario_selfcons(_args: &[String]) {
     solve_and_print(u, vec![Requirement::Single(req)], true);
 }
 
+/// C04/F5: a hinted candidate that is already decided false when its requirement is encoded:
+/// package a = {a1, a2} locked to a1 with HintDependenciesAvailable::All, a2 requires x; the root has a
+/// constraint on a (so the lock forces a2 = false first) and requires p; p1 requires a.
+fn scenario_hintedfalse(_args: &[String]) {
+    let mut u = Uni::default();
+    let x1 = u.solvable("x", 1);
+    let _ = x1;
+    let any_x = u.vs("x", &[1]);
+    let a1 = u.solvable("a", 1);
+    let a2 = u.solvable("a", 2);
+    u.dep(a2).requirements.push(Requirement::Single(any_x));
+    let any_a = u.vs("a", &[1, 2]);
+    let p1 = u.solvable("p", 1);
+    u.dep(p1).requirements.push(Requirement::Single(any_a));
+    let any_p = u.vs("p", &[1]);
+    let a = u.name("a");
+    u.locked.push((a, a1));
+    u.hint_all.push(a);
+    solve_and_print_c(u, vec![Requirement::Single(any_p)], vec![any_a], true);
+}
+
+/// C04/F3 (second shape): the self-constraining solvable is the preferred candidate; the other one must be chosen.
+fn scenario_selfcons_preferred(_args: &[String]) {
+    let mut u = Uni::default();
+    let a9 = u.solvable("a", 9);
+    let _a2 = u.solvable("a", 2);
+    let only2 = u.vs("a", &[2]);
+    u.dep(a9).constrains.push(only2);
+    let any = u.vs("a", &[9, 2]);
+    solve_and_print(u, vec![Requirement::Single(any)], true);
+}
+
 fn main() {
     let args: Vec<String> = std::env::args().skip(1).collect();
     match args[0].as_str() {
         "c15" => scenario_c15(&args[1..]),
         "selfcons" => scenario_selfcons(&args[1..]),
+        "selfcons_preferred" => scenario_selfcons_preferred(&args[1..]),
+        "hintedfalse" => scenario_hintedfalse(&args[1..]),
         other => {
             eprintln!("unknown scenario {other}");
             std::process::exit(64);
